@@ -20,7 +20,7 @@ from math import erfc, exp, pi, sqrt
 import numpy as np
 
 
-def cbar(q_cart, lattice, tau, eps, Lt, tol=1e-16):
+def cbar(q_cart, lattice, tau, eps, Lt, tol=1e-16, parts=("recip", "real", "limit")):
     lattice = np.array(lattice, float)
     rec = np.linalg.inv(lattice)            # columns = reciprocal basis
     vol = abs(np.linalg.det(lattice))
@@ -32,9 +32,10 @@ def cbar(q_cart, lattice, tau, eps, Lt, tol=1e-16):
     nat = len(tau)
     out = np.zeros((nat, 3, nat, 3), complex)
     # reciprocal part
+    do_recip, do_real, do_lim = ("recip" in parts), ("real" in parts), ("limit" in parts)
     kmax = Lt / pi * sqrt(-np.log(tol) / emin) + np.linalg.norm(q_cart)
     ng = [int(np.ceil(kmax * np.linalg.norm(lattice[i]))) + 1 for i in range(3)]
-    for g in itertools.product(*[range(-n, n + 1) for n in ng]):
+    for g in (itertools.product(*[range(-n, n + 1) for n in ng]) if do_recip else ()):
         G = rec @ np.array(g, float)
         K = G + q_cart
         kek = K @ eps @ K
@@ -47,7 +48,7 @@ def cbar(q_cart, lattice, tau, eps, Lt, tol=1e-16):
     # real-space part
     rmax = sqrt(-np.log(tol) * emax) / Lt + 2 * max(np.linalg.norm(t) for t in lattice)
     nr = [int(np.ceil(rmax * np.linalg.norm(rec[:, i]))) + 1 for i in range(3)]
-    for r in itertools.product(*[range(-n, n + 1) for n in nr]):
+    for r in (itertools.product(*[range(-n, n + 1) for n in nr]) if do_real else ()):
         R = np.array(r, float) @ lattice
         for i in range(nat):
             for j in range(nat):
@@ -65,18 +66,18 @@ def cbar(q_cart, lattice, tau, eps, Lt, tol=1e-16):
                 B = erfc(y) / y ** 3 + 2 / sqrt(pi) * e2 / y ** 2
                 H = np.outer(x, x) * A - einv * B
                 out[i, :, j, :] += -Lt ** 3 / sdet * H * np.exp(2j * pi * (q_cart @ d))
-    for i in range(nat):
+    for i in (range(nat) if do_lim else ()):
         out[i, :, i, :] += -4 * Lt ** 3 / (3 * sqrt(pi) * sdet) * einv
     return out
 
 
-def dd_matrix(q_cart, lattice, tau, eps, born, masses, factor_unit, Lt):
+def dd_matrix(q_cart, lattice, tau, eps, born, masses, factor_unit, Lt, parts=("recip", "real", "limit")):
     """mass-weighted dipole-dipole dynamical matrix with the acoustic-sum-rule term:
     C[i,j](q) = unit * Z_i^T Cbar_ij(q) Z_j - delta_ij sum_j' unit * Z_i^T Cbar_ij'(0) Z_j'   (the sum symmetrised)."""
     born = np.array(born, float)
     nat = len(tau)
-    cq = np.einsum("imk,imjn,jnl->ikjl", born, cbar(np.array(q_cart, float), lattice, tau, eps, Lt), born) * factor_unit
-    c0 = np.einsum("imk,imjn,jnl->ikjl", born, cbar(np.zeros(3), lattice, tau, eps, Lt), born) * factor_unit
+    cq = np.einsum("imk,imjn,jnl->ikjl", born, cbar(np.array(q_cart, float), lattice, tau, eps, Lt, parts=parts), born) * factor_unit
+    c0 = np.einsum("imk,imjn,jnl->ikjl", born, cbar(np.zeros(3), lattice, tau, eps, Lt, parts=parts), born) * factor_unit
     for i in range(nat):
         s = c0[i].sum(axis=1)
         cq[i, :, i, :] -= (s + s.conj().T) / 2
